@@ -5,6 +5,8 @@
     @ shape <lens>                         bare ShapeIterator (zero lengths allowed)   → ok
     @ tensor <shape> <adaptor>*            Tensor with ids 0..n-1 (id = storage offset), then
          range:<name>.<start>.<len>,…       TensorRange::from            (clipped; rejected if empty)
+         mask:<name>.<start>.<len>,…        TensorMask::from             (clipped; rejected if nothing is left)
+         rename:<names>                     TensorRename::from
          reverse:<name>,…                   TensorReverse::from
          access:<names>                     TensorAccess::from
          transpose:<names>                  TensorTranspose::from
@@ -198,6 +200,28 @@ def applyTensorAdaptor (names : List String) (src : TSource Nat) (tok : String) 
         | none => (0, clipLength 0 len len)
       if ranges.any (fun r => r.2 == 0) then none
       else some (names, src.range ranges)
+  | ["mask", spec] =>
+    let parts := (splitComma spec).map parseDotted
+    let parsed : Option (List (String × Nat × Nat)) := parts.mapM fun p =>
+      match p with
+      | [n, s, l] => match s.toNat?, l.toNat? with
+        | some s, some l => some (n, s, l)
+        | _, _ => none
+      | _ => none
+    match parsed with
+    | none => none
+    | some ms =>
+      if ms.any (fun r => !names.contains r.1) then none else
+      let masks := (List.zip names src.shape).map fun (nm, len) =>
+        match ms.reverse.find? (fun r => r.1 = nm) with
+        | some (_, s, l) => (s, clipLength s l len)
+        | none => (0, 0)
+      let masked := src.mask masks
+      if masked.shape.any (fun l => l == 0) then none else some (names, masked)
+  | ["rename", spec] =>
+    let newNames := splitComma spec
+    if hasDuplicates newNames || newNames.length ≠ names.length then none
+    else some (newNames, src)
   | ["reverse", spec] =>
     let rev := splitComma spec
     if hasDuplicates rev || rev.any (fun r => !names.contains r) then none
